@@ -50,6 +50,7 @@ class RunCtx:
         self.specs = Specs()
         self.col = Collector()
         self.V = Verifier(self.repo, self.specs, self.col)
+        self.V.tier = tier
         from . import models
         self.V.hooks.append(models.install)
         self.engine_digest = engine_digest()
@@ -81,7 +82,7 @@ def gen_target(ctx, tgt, unit=None):
     always re-read and re-verified"""
     import pickle
     from .obligation import Collector as _Col
-    key = '%s-%s-%s' % (ctx.repo.digest[:20], ctx.specs.digest[:20], ctx.engine_digest[:20])
+    key = '%s-%s-%s%s' % (ctx.repo.digest[:20], ctx.specs.digest[:20], ctx.engine_digest[:20], '-thorough' if ctx.tier == 'thorough' else '')
     cdir = os.path.join(ROOT, '.cache', key)
     path = unit_path(cdir, tgt, unit)
     if os.path.exists(path) and not os.environ.get('PYVC_NOCACHE'):
@@ -126,6 +127,7 @@ def gen_target(ctx, tgt, unit=None):
             pass
     sub = _Col()
     V = Verifier(ctx.repo, ctx.specs, sub)
+    V.tier = ctx.tier
     V.hooks = list(ctx.V.hooks)
     try:
         V.verify_target(tgt, None, only=unit)
@@ -182,7 +184,7 @@ def run_property(pid, tier, seed, args):
         us = ctx.V.units_of(tgt)
         units += [(tgt, u) for u in us] if len(us) > 1 else [(tgt, None)]
     missing = []
-    key = '%s-%s-%s' % (ctx.repo.digest[:20], ctx.specs.digest[:20], ctx.engine_digest[:20])
+    key = '%s-%s-%s%s' % (ctx.repo.digest[:20], ctx.specs.digest[:20], ctx.engine_digest[:20], '-thorough' if tier == 'thorough' else '')
     cdir = os.path.join(ROOT, '.cache', key)
     for tgt, u in units:
         if not os.path.exists(unit_path(cdir, tgt, u)) or os.environ.get('PYVC_NOCACHE'):
@@ -458,6 +460,8 @@ def assumed_lines(ctx, col):
             continue
         if a in tr:
             out.append('TRUSTED contract (not verified; bounded stand-in only): %s - %s' % (a, tr[a]))
+        elif a.startswith('ledger:'):
+            out.append('ledger model / lemma (assumed in the quick tier; the finite-sum facts are Lean theorems in lean/Ledger.lean, DESIGN 11.L): ' + a)
         elif a.endswith('(model)') or a.startswith('E.rounds'):
             out.append('model of the election data structures (assumed; select model checked by conformance obligations): ' + a)
         elif a in ctx.specs.contracts:
